@@ -1,7 +1,7 @@
 (* Dispatcher: one entry point for every executable model function. *)
 From Coq Require Import List ZArith Arith Bool QArith Qcanon.
 From MsmV Require Import Lib.Result Lib.PyList Lib.Sorting Run.Wire.
-From MsmV Require Import Lib.QMat Model.Labels Model.StateTraj Model.Msm Proofs.MsmFacts Model.Coring Proofs.CoringFacts Proofs.CoringWrap Model.Events Model.Similarity Spec.Wrappers Model.Ergodic Model.Peq Model.HS Model.Mcmc.
+From MsmV Require Import Lib.QMat Model.Labels Model.StateTraj Model.Msm Proofs.MsmFacts Model.Coring Proofs.CoringFacts Proofs.CoringWrap Model.Events Model.Similarity Spec.Wrappers Model.Ergodic Model.Peq Model.HS Model.Mcmc Model.CkTest.
 Import ListNotations.
 Local Open Scope Z_scope.
 
@@ -202,6 +202,30 @@ Definition run_mcmc (e : Z) (a : list Z) : option (list Z) :=
     | None => None end
   else None.
 
+Definition eck (c : ckeq) : list Z :=
+  elist eQs (ck_curves c) ++ enats (ck_times c) ++ ebool (ck_erg c) ++ ebool (ck_fuzzy c) ++ eZs (ck_states c).
+Definition eref (macro : statetraj) (lags : list nat) : list Z :=
+  elist (fun t => let '(d, e, f) := ck_reference_at macro t in
+                  eQs d ++ ebool e ++ ebool f
+                  ++ ebool (threshold_free (fst (emm macro t)) && rows_clear (fst (emm macro t)))) lags.
+
+Definition run_ck (e : Z) (a : list Z) : option (list Z) :=
+  if e =? 901 then
+    match dpair dnested (dpair dnat (dpair dnat (dlist dnat))) a with
+    | Some ((ts, (lag, (tmax, refs))), _) =>
+        Some (eres (fun s => eck (ck_model_plain s lag tmax)
+                             ++ ebool (threshold_free (fst (emm s lag)) && rows_clear (fst (emm s lag)))
+                             ++ eref s refs) (mk ts))
+    | None => None end
+  else if e =? 902 then
+    match dpair dnested (dpair dnested (dpair dnat (dpair dnat (dlist dnat)))) a with
+    | Some ((macro, (micro, (lag, (tmax, refs)))), _) =>
+        Some (eres (fun l => eres (eopt eck) (ck_model_lumped l lag tmax)
+                             ++ ebool (threshold_free (fst (emm (lu_micro l) lag)))
+                             ++ eres (fun s => eref s refs) (mk macro)) (mk_lumped macro micro false))
+    | None => None end
+  else None.
+
 Definition run (req : list Z) : list Z :=
   match req with
   | [] => malformed
@@ -229,6 +253,9 @@ Definition run (req : list Z) : list Z :=
       | None =>
       match run_mcmc e a with
       | Some r => r
+      | None =>
+      match run_ck e a with
+      | Some r => r
       | None => malformed
-      end end end end end end end end
+      end end end end end end end end end
   end.
